@@ -95,7 +95,10 @@ def run(tier, seed):
                             ck.fail('built-in JSON user data is not shown as that JSON value', rp, 'builtin_json')
                         ck.count('oracle builtin json')
                     elif builtin and sec['hdr']['sub'] == 3:
-                        text = sec['payload'].decode().strip().rstrip('\0')
+                        try:
+                            text = sec['payload'].decode().strip().rstrip('\0')
+                        except UnicodeDecodeError:
+                            continue        # not text: outside the clause (the unchanged code rejects such a PEL)
                         exp = [''.join(c if ' ' <= c <= '~' else '.' for c in ln) for ln in text.split('\n')]
                         if exp and exp[-1] == '':
                             exp.pop()
